@@ -8,6 +8,8 @@
 //   - Go-made signatures (Sign, SignDeterministic, tink Signer, TINK prefix)  (G slhverify = 1)
 //   - mutation streams in every structural region / lengths / message / key   (G slhverify = 0)
 //   - toInt / toByte / base_2^b and the digest split of sign and verify       (G slhtoint ...)
+//   - over-long contexts with crafted signatures (ctxwrap.go)                 (G slhfmt = err)
+//   - large messages, 64 KiB .. 1 MiB as @len:seed tokens (large.go)          (G slhdigestx, slhhmsgx, slhverifyx, slhsignx)
 //
 // Every line is a deterministic function of the seed: crypto/rand is replaced by hlib's tape and is
 // only read from the main goroutine; the worker pool only runs randomness-free signing calls.
@@ -313,6 +315,9 @@ func evalLine(l string) (res string) {
 			return fmt.Sprintf("sign-and-verify-split-differ %+v %+v", r, r2)
 		}
 		return fmt.Sprintf("%s %d %d", hlib.Tok(dg[:s.mdLen()]), r.IdxTree, r.IdxLeaf)
+	}
+	if r, ok := evalLarge(t, set); ok { // the ...x ops of the LARGE MESSAGES section (large.go)
+		return r
 	}
 	return "bad-op"
 }
@@ -646,6 +651,10 @@ func main() {
 	// ---------- 5. over-long contexts with crafted signatures, the 255-byte boundary ----------
 	ctxWrap(o, seed, keys)
 	lap("context-length boundary")
+
+	// ---------- 6. large messages (k*2^16+d, 100000, 1 MiB): digests, signatures, mutations, crafted signatures ----------
+	largeMessages(o, seed, keys)
+	lap("large messages")
 }
 
 // ---------- mutation stream ----------
